@@ -20,7 +20,11 @@ for name in names:
     wt = Path(f"/tmp/harmless_{name}")
     sh(f"git -C {REPO} worktree remove --force {wt}")
     rc, out = sh(f"git -C {REPO} worktree add -q --detach {wt} HEAD"); assert rc == 0, out
-    rc, out = sh(f"git apply {d/'patch.diff'}", cwd=wt); assert rc == 0, out
+    rc, out = sh(f"git apply {d/'patch.diff'}", cwd=wt)
+    if rc != 0:
+        sh(f"git -C {REPO} worktree remove --force {wt}")
+        print(name, "PATCH DOES NOT APPLY:", out.strip()[:200])
+        continue
     res = {}
     try:
         rc, out = sh("/venv/bin/python -m pytest -q -p no:cacheprovider tests 2>&1 | tail -1", cwd=wt)
